@@ -46,6 +46,42 @@ fn dec_edge(ctx: &mut DeserializationContext<'_>, created: &mut Vec<Rc<Node>>) -
     }
 }
 
+// ---- the same graph inside an evolved derived record: the reference markers travel through the serializer's
+// chunk buffers (the record writer buffers every chunk and emits them after the header) ----
+thread_local! {
+    static CREATED: RefCell<Vec<Rc<Node>>> = RefCell::new(Vec::new());
+}
+
+pub struct Edge(pub Rc<Node>);
+
+impl desert::BinarySerializer for Edge {
+    fn serialize<O: BinaryOutput>(&self, ctx: &mut SerializationContext<O>) -> Result<()> {
+        enc_edge(ctx, &self.0)
+    }
+}
+impl desert::BinaryDeserializer for Edge {
+    fn deserialize(ctx: &mut DeserializationContext<'_>) -> Result<Self> {
+        let mut created = CREATED.with(|c| std::mem::take(&mut *c.borrow_mut()));
+        let r = dec_edge(ctx, &mut created);
+        CREATED.with(|c| *c.borrow_mut() = created);
+        r.map(Edge)
+    }
+}
+
+fn leaf() -> Edge {
+    Edge(Rc::new(Node { label: Cell::new(0), edges: RefCell::new(Vec::new()) }))
+}
+
+/// version 1: `second` lives in its own chunk, so a back-reference is written into a different buffer than the
+/// object it refers to
+#[derive(desert::BinaryCodec)]
+#[evolution(FieldAdded("second", leaf()))]
+pub struct Doc {
+    pub title: String,
+    pub first: Edge,
+    pub second: Edge,
+}
+
 fn show(created: &[Rc<Node>]) -> String {
     let idx = |r: &Rc<Node>| created.iter().position(|c| Rc::ptr_eq(c, r)).expect("edge target was created");
     let parts: Vec<String> = created
@@ -59,6 +95,19 @@ fn show(created: &[Rc<Node>]) -> String {
         "-".into()
     } else {
         parts.join(" ")
+    }
+}
+
+/// Doc followed by a count of the bytes left in the context
+struct DocRest(Doc, usize);
+impl desert::BinaryDeserializer for DocRest {
+    fn deserialize(ctx: &mut DeserializationContext<'_>) -> Result<Self> {
+        let d = <Doc as desert::BinaryDeserializer>::deserialize(ctx)?;
+        let mut rest = 0usize;
+        while ctx.read_u8().is_ok() {
+            rest += 1;
+        }
+        Ok(DocRest(d, rest))
     }
 }
 
@@ -131,6 +180,57 @@ pub fn cases(args: &[String]) {
                         format!("ok {enc} ; {}", decode(&bytes))
                     }
                     Err(e) => format!("err {} ; -", crate::dynval::err_class(&e)),
+                };
+                break_cycles(&nodes);
+                line
+            }
+            "ge" => {
+                // `ge ROOT NODES.. SUFFIX`: Doc { title: "t", first: root, second: root }
+                let root: usize = t[1].parse().unwrap();
+                let specs = &t[2..t.len() - 1];
+                let suffix = unhex(&t[t.len() - 1]);
+                let nodes: Vec<Rc<Node>> = specs
+                    .iter()
+                    .map(|s| {
+                        let (l, _) = s.split_once(':').unwrap();
+                        Rc::new(Node { label: Cell::new(l.parse().unwrap()), edges: RefCell::new(Vec::new()) })
+                    })
+                    .collect();
+                for (n, s) in nodes.iter().zip(specs) {
+                    let (_, es) = s.split_once(':').unwrap();
+                    for e in es.split(',').filter(|x| !x.is_empty()) {
+                        n.edges.borrow_mut().push(nodes[e.parse::<usize>().unwrap()].clone());
+                    }
+                }
+                // the parts, written at top level with the same primitives: the graph, then the root again
+                let mut ca = SerializationContext::new(Vec::<u8>::new());
+                let mut cb = SerializationContext::new(Vec::<u8>::new());
+                let parts = enc_edge(&mut ca, &nodes[root])
+                    .and_then(|_| enc_edge(&mut cb, &nodes[root]))
+                    .and_then(|_| enc_edge(&mut cb, &nodes[root]));
+                let doc = Doc { title: "t".to_string(), first: Edge(nodes[root].clone()), second: Edge(nodes[root].clone()) };
+                let res = desert::serialize_to_byte_vec(&doc);
+                let line = match (res, parts) {
+                    (Ok(mut bytes), Ok(())) => {
+                        let g_len = ca.into_output().len();
+                        let all = cb.into_output();
+                        let enc = hex(&bytes);
+                        bytes.extend_from_slice(&suffix);
+                        CREATED.with(|c| c.borrow_mut().clear());
+                        let d = desert::deserialize::<DocRest>(&bytes);
+                        let created = CREATED.with(|c| std::mem::take(&mut *c.borrow_mut()));
+                        let dl = match d {
+                            Ok(DocRest(doc, rest)) => {
+                                let i1 = created.iter().position(|c| Rc::ptr_eq(c, &doc.first.0)).unwrap();
+                                let i2 = created.iter().position(|c| Rc::ptr_eq(c, &doc.second.0)).unwrap();
+                                format!("ok {} {i1} {i2} | {} | {rest}", hex(doc.title.as_bytes()), show(&created))
+                            }
+                            Err(e) => format!("err {}", crate::dynval::err_class(&e)),
+                        };
+                        break_cycles(&created);
+                        format!("ok {enc} ; {} {} ; {dl}", hex(&all[..g_len]), hex(&all[g_len..]))
+                    }
+                    (Err(e), _) | (_, Err(e)) => format!("err {} ; - ; -", crate::dynval::err_class(&e)),
                 };
                 break_cycles(&nodes);
                 line
